@@ -174,6 +174,8 @@ class Ctx:
         if sanitize:
             cmd += SAN
         cmd += list(flags)
+        if os.environ.get("VERIF_COVERAGE") and comp in ("gcc", "g++"):
+            cmd += ["--coverage", "-O0"]      # tools/coverage.sh: which lines of /repo the correspondence exercises
         if not link:
             cmd += ["-c"]
         cmd += ["-o", out] + list(sources)
